@@ -263,3 +263,30 @@ PROPS["C13"] = {
         ],
     },
 }
+
+PROPS["C14"] = {
+    "pkg": "c14", "level": "exploration",
+    "technique": "property-based testing (rapid) over derivation histories (keygen, derive at boundary/random indices up to depth 3, interleaved refresh, sign): oracle = an "
+                 "independent BIP-32 CKDpub (HMAC-SHA512 + math/big curve arithmetic) for child key and chain code at every party, the C02 sharing-consistency conditions on "
+                 "the derived shares, and independent signature verification under the reference-derived child key",
+    "level_text": "Real keygen runs (FROST, FROST-Taproot, Doerner; CMP few plus dealt CMP material) followed by generated derive/refresh sequences; after every step all parties "
+                  "must hold the same 32-byte chain key and exactly the child key/chain code prescribed by BIP-32, the derived shares must reconstruct the child key for every "
+                  "(t+1)-subset, and signing with derived material must verify under the child key.",
+    "level_note": "Refresh is not required to preserve the chain key (the statement does not say so); derivation is checked against whatever chain key the parties hold. "
+                  "No official BIP-32 vectors are available offline; the reference is written from the specification.",
+    "rule": "case = (scheme, material source, n, t, history shape e.g. DRD, whether it signs, whether a boundary index 0/1/2^31-1 occurs); non-trivial iff depth >= 2, or a "
+            "boundary index, or non-CMP material; distinct = distinct class keys",
+    "assumptions": ["reference CKDpub is correct"],
+    "tiers": {
+        "quick": [
+            {"run": "^TestFrostDoerner$", "checks": 1200, "shards": 8},
+            {"run": "^TestCMPDealt$", "checks": 160, "shards": 4},
+            {"run": "^TestCMPReal$", "checks": 4, "shards": 4, "timeout": 1500},
+        ],
+        "thorough": [
+            {"run": "^TestFrostDoerner$", "checks": 40000, "shards": 8},
+            {"run": "^TestCMPDealt$", "checks": 6000, "shards": 4},
+            {"run": "^TestCMPReal$", "checks": 80, "shards": 4, "timeout": 7000},
+        ],
+    },
+}
